@@ -1,6 +1,167 @@
 package main
 
-func thoroughImpl(prop, repo string, rules []*Rule, base *Prog) (map[string]any, []Obligation) {
-	return map[string]any{}, nil
+import (
+	"fmt"
+	"math/rand"
+	"os"
+	"sort"
+	"strconv"
+	"sync"
+)
+
+// thoroughConfigs are the extra build configurations every rule must also pass on.
+var thoroughConfigs = []LoadConfig{
+	{GOOS: "linux", GOARCH: "arm64"},
+	{GOOS: "darwin", GOARCH: "amd64"},
+	{GOOS: "linux", GOARCH: "386"},
+	{GOOS: "linux", GOARCH: "amd64", Tags: "hashicorpmetrics"},
 }
 
+// thoroughImpl: (1) the property's rules again on other GOOS/GOARCH/tag
+// configurations; (2) witness sensitivity: every corpus mutant that targets one
+// of the property's rules is applied as an in-memory overlay of the *current*
+// source and the rule must report it (INSENSITIVE otherwise; informational).
+func thoroughImpl(prop, repo string, rules []*Rule, base *Prog) (map[string]any, []Obligation) {
+	extra := map[string]any{}
+	var obls []Obligation
+	ruleSet := map[string]bool{}
+	for _, r := range rules {
+		ruleSet[r.ID] = true
+	}
+	// (1) configurations
+	var cfgNames []string
+	type cfgRes struct {
+		name string
+		obls []Obligation
+		err  error
+		n    int
+	}
+	results := make([]cfgRes, len(thoroughConfigs))
+	var wg sync.WaitGroup
+	sem := make(chan struct{}, 2)
+	for i, cfg := range thoroughConfigs {
+		wg.Add(1)
+		go func(i int, cfg LoadConfig) {
+			defer wg.Done()
+			sem <- struct{}{}
+			defer func() { <-sem }()
+			cfg.RepoDir = repo
+			name := cfg.GOOS + "/" + cfg.GOARCH
+			if cfg.Tags != "" {
+				name += "+" + cfg.Tags
+			}
+			results[i].name = name
+			p, err := loadProg(cfg)
+			if err != nil {
+				results[i].err = err
+				return
+			}
+			for _, rule := range rules {
+				rr := execRule(p, rule, "thorough")
+				results[i].n += len(rr.Obls)
+				for _, o := range rr.Obls {
+					if o.Status != Discharged {
+						o.Key += "@" + name
+						o.Detail = "[" + name + "] " + o.Detail
+						results[i].obls = append(results[i].obls, o)
+					}
+				}
+			}
+		}(i, cfg)
+	}
+	wg.Wait()
+	cfgSummary := map[string]any{}
+	for _, res := range results {
+		cfgNames = append(cfgNames, res.name)
+		if res.err != nil {
+			// a configuration the sandbox cannot build is reported, not silently skipped
+			cfgSummary[res.name] = "not analysable here: " + res.err.Error()
+			fmt.Printf("note: configuration %s could not be loaded: %v\n", res.name, res.err)
+			continue
+		}
+		cfgSummary[res.name] = fmt.Sprintf("%d obligations, %d not discharged", res.n, len(res.obls))
+		obls = append(obls, res.obls...)
+	}
+	extra["configurations"] = cfgSummary
+
+	// (2) witness sensitivity
+	var todo []mutant
+	for _, m := range corpus {
+		if m.Silent {
+			continue
+		}
+		for _, id := range m.Fire {
+			if ruleSet[id] {
+				todo = append(todo, m)
+				break
+			}
+		}
+	}
+	seed := int64(0)
+	if s := os.Getenv("VERIF_SEED"); s != "" {
+		if n, err := strconv.ParseInt(s, 10, 64); err == nil {
+			seed = n
+		}
+	}
+	rng := rand.New(rand.NewSource(seed))
+	rng.Shuffle(len(todo), func(i, j int) { todo[i], todo[j] = todo[j], todo[i] })
+	limit := 24
+	if len(todo) > limit {
+		todo = todo[:limit]
+	}
+	// baseline noise
+	for _, rule := range rules {
+		rr := execRule(base, rule, "quick")
+		for _, o := range rr.Obls {
+			if o.Status != Discharged {
+				baselineNoise[o.Key] = true
+			}
+		}
+	}
+	res := make([]selfResult, len(todo))
+	sem2 := make(chan struct{}, 8)
+	for i, m := range todo {
+		wg.Add(1)
+		go func(i int, m mutant) {
+			defer wg.Done()
+			sem2 <- struct{}{}
+			defer func() { <-sem2 }()
+			defer func() {
+				if e := recover(); e != nil {
+					res[i] = selfResult{m.Name, false, fmt.Sprint("panic: ", e)}
+				}
+			}()
+			// only the rules of this property count
+			mm := m
+			mm.Fire = nil
+			for _, id := range m.Fire {
+				if ruleSet[id] {
+					mm.Fire = append(mm.Fire, id)
+				}
+			}
+			res[i] = runMutant(repo, mm)
+		}(i, m)
+	}
+	wg.Wait()
+	sens, insens, stale := 0, 0, 0
+	var samples []map[string]string
+	sort.Slice(res, func(i, j int) bool { return res[i].Name < res[j].Name })
+	for _, r0 := range res {
+		switch {
+		case r0.OK:
+			sens++
+		case len(r0.Msg) > 5 && (r0.Msg[:5] == "stale" || r0.Msg[:7] == "variant"):
+			stale++
+			fmt.Printf("note: sensitivity variant %s skipped: %s\n", r0.Name, r0.Msg)
+		default:
+			insens++
+			fmt.Printf("INSENSITIVE %s: %s\n", r0.Name, r0.Msg)
+		}
+		if len(samples) < 8 {
+			samples = append(samples, map[string]string{"variant": r0.Name, "result": r0.Msg})
+		}
+	}
+	extra["witness_sensitivity"] = map[string]any{"variants_tried": len(res), "detected": sens, "insensitive": insens, "skipped_stale_or_not_compiling": stale, "samples": samples,
+		"note": "each variant is the current /repo source with one seeded fault applied as an in-memory overlay; the rule must report it. Informational: a statement about the checker, not about raft-wal."}
+	return extra, obls
+}
